@@ -187,11 +187,19 @@ var errWatchdog = errors.New("watchdog")
 // inProc runs f inside the process. ran=false: the process terminated without
 // running f (f had no effect). err=errWatchdog: nothing observable happened in time.
 func inProc(h *handle, f func(p *actors.Probe) error) (ran bool, err error) {
+	return inProcT(h, f, 0)
+}
+
+// inProcT: d > 0 replaces the watchdog for closures that compute for a long time
+func inProcT(h *handle, f func(p *actors.Probe) error, limit time.Duration) (ran bool, err error) {
 	d := do{F: f, Done: make(chan struct{})}
 	if e := node.Send(h.pid, d); e != nil {
 		return false, nil
 	}
-	t := time.NewTimer(wd())
+	if limit == 0 {
+		limit = wd()
+	}
+	t := time.NewTimer(limit)
 	defer t.Stop()
 	select {
 	case <-d.Done:
